@@ -138,7 +138,7 @@ pub fn build_cases(tier: &str, seed: u64, pools: &Pools) -> Vec<Case> {
         let auth = authentic(p, &key, &mut rng, "{\"data\":\"this is a secret message\",\"n\":12345}", None, None);
         let auth_payload: Vec<u8> = auth.as_ref().and_then(|t| util::unb64(t.split('.').nth(2).unwrap_or(""))).unwrap_or_default();
         // (1) correct header + base64url of EVERY decoded length 0..=400 (exhaustive), three fills, with/without footer segment
-        let maxlen = if thorough { 1200 } else { 400 };
+        let maxlen = if thorough { 2000 } else { 400 };
         for len in 0..=maxlen {
             for fill in 0..3 {
                 let bytes: Vec<u8> = match fill {
@@ -236,7 +236,7 @@ pub fn build_cases(tier: &str, seed: u64, pools: &Pools) -> Vec<Case> {
             "v0.local.AAAA".into(), "v4.local.AAAA.AAAA.AAAA".into(), "\0".into(), "\u{feff}v4.local.AAAA".into(), "v4\u{2024}local\u{2024}AAAA".into(),
             "v1.local.".into(), "v2.public.".into(), "v3.public.".into(), "v1.public.".into(), "null".into(), "{}".into(), "[]".into(),
         ];
-        for _ in 0..(if thorough { 3000 } else { 300 }) {
+        for _ in 0..(if thorough { 30_000 } else { 300 }) {
             let segs = rng.below(7);
             let mut s = String::new();
             for i in 0..segs {
@@ -353,4 +353,4 @@ pub fn replay(case: &Value) -> Report {
     r
 }
 
-pub const RULE: &str = "cases = for each of the 8 protocols x 4 entry points (core, generic, batteries new(), batteries default()): the correct header followed by base64url of EVERY decoded length 0..=400 (thorough 0..=1200) with zero/random/authentic-prefix fill, with and without a matching footer segment; random larger payloads; every character prefix and several extensions of authentic tokens; multi-byte characters substituted and inserted at each of the first 14 positions (so that byte offsets near the header length are not character boundaries); invalid/padded/non-alphabet base64; 0-6 segment strings of arbitrary Unicode; foreign and relabelled tokens; large inputs; garbage public keys; and Key::<N>::try_from(&str) for N in {1,2,24,32,48,49,56,64} on hex strings of every length 0..=200 plus non-hex text. All with VALID key material so that parsing proceeds past key handling. Oracle: any Ok/Err is fine, a panic or process death is the violation. distinct_nontrivial = distinct (entry point, case class, outcome variant) tuples whose input got past the segment-count and header checks";
+pub const RULE: &str = "cases = for each of the 8 protocols x 4 entry points (core, generic, batteries new(), batteries default()): the correct header followed by base64url of EVERY decoded length 0..=400 (thorough 0..=2000) with zero/random/authentic-prefix fill, with and without a matching footer segment; random larger payloads; every character prefix and several extensions of authentic tokens; multi-byte characters substituted and inserted at each of the first 14 positions (so that byte offsets near the header length are not character boundaries); invalid/padded/non-alphabet base64; 0-6 segment strings of arbitrary Unicode; foreign and relabelled tokens; large inputs; garbage public keys; and Key::<N>::try_from(&str) for N in {1,2,24,32,48,49,56,64} on hex strings of every length 0..=200 plus non-hex text. All with VALID key material so that parsing proceeds past key handling. Oracle: any Ok/Err is fine, a panic or process death is the violation. distinct_nontrivial = distinct (entry point, case class, outcome variant) tuples whose input got past the segment-count and header checks";
